@@ -109,7 +109,9 @@ func hostileMIDs(c *Ctx, n int) []string {
 	mids := []string{"../../outside/x", "../x", "..", ".", "", "/etc/x", "/abs", "a/b", "a/../../../outside/x", "..\\x", "..\\..\\outside\\x",
 		"x\x00y", "\x00", long, "../" + long, strings.Repeat("../", 40) + "tmp/x", "æøå", "..%2f..%2fx", ".hidden", "a/", "/", "//", "./x", "x/.",
 		"in/../../outside/x", "../in/GOODIN000001", "../out/GOODOUT00001", "../../outside/decoy", "../../decoy",
-		strings.Repeat("a", 240), strings.Repeat("a", 252), // around NAME_MAX, but not inside the window where only the temp name is too long
+		strings.Repeat("a", 240), strings.Repeat("a", 252), // around NAME_MAX
+		// the window where "<MID>.b2f" still fits NAME_MAX but "<MID>.b2f.tmp" does not (the store fails cleanly)
+		strings.Repeat("a", 247), strings.Repeat("b", 248), strings.Repeat("c", 249), strings.Repeat("d", 250), strings.Repeat("e", 251),
 
 		"Mid With Space", "-", "~", "*", "CON", "a\\b", "a:b", "GOODOUT00001", "GOODIN000001", "NEWMID000001", "x.b2f", "x.tmp", "X.B2F", "..x", "x..", "x/../y", "\xff\xfe", " ", "a\nb"}
 	// RFC 2047 encoded-words: harmless as raw bytes, a path once somebody decodes them
@@ -200,6 +202,23 @@ func init() {
 			db, _ := decoy.Bytes()
 			for _, p := range []string{"outside/x.b2f", "outside/decoy.b2f", "decoy.b2f", "x.b2f", "outside/in/y.b2f", "outside/out/GOODOUT00001.b2f", "mbox-1/out/GOODOUT00001.b2f"} {
 				os.WriteFile(filepath.Join(sb, p), db, 0o644)
+			}
+			// the process's temp directory is watched too: it lies in the sandbox (outside the mailbox), with
+			// decoys under the names a store of this MID might stage
+			tmpDir := filepath.Join(sb, "outside", "tmp")
+			os.MkdirAll(tmpDir, 0o755)
+			oldTmp, hadTmp := os.LookupEnv("TMPDIR")
+			os.Setenv("TMPDIR", tmpDir)
+			defer func() {
+				if hadTmp {
+					os.Setenv("TMPDIR", oldTmp)
+				} else {
+					os.Unsetenv("TMPDIR")
+				}
+			}()
+			if len(mid) > 200 && len(mid) < 252 && !strings.ContainsAny(mid, "/\x00") {
+				os.WriteFile(filepath.Join(tmpDir, mid+".b2f"), db, 0o644)
+				os.WriteFile(filepath.Join(tmpDir, mid+".b2f.tmp"), db, 0o644)
 			}
 			rb := newRealBox(root, false)
 			for _, o := range pre {
